@@ -29,8 +29,17 @@ WORKERS = {"quick": 6, "thorough": 16}
 MIN_NONTRIVIAL = {"quick": 200, "thorough": 1500}
 REQUIRED_FUNCTIONS = ["program.py:BlackbirdProgram.serialize", "listener.py:RegRefTransform.__init__", "listener.py:BlackbirdListener.exitStatement", "program.py:_format_value"]
 FUNCTIONS = REQUIRED_FUNCTIONS
-REQUIRED_TAGS = ["param-multi", "regref-multi", "include>=3-modes"]
+REQUIRED_TAGS = ["param-multi", "regref-multi", "include>=3-modes", "symbolic-include-argument"]
 ASSUMPTIONS = ["the documented freedom (order in which a register transform lists its registers) is canonicalised: sorted register set + function values fed in the listed order"]
+
+
+def normalise_message(msg):
+    import re
+
+    def fix(m):
+        return "{" + ", ".join(sorted(x.strip() for x in m.group(1).split(","))) + "}"
+
+    return re.sub(r"\{([^{}]*)\}", fix, msg)
 
 
 def worker_env(w, n, tier):
@@ -41,8 +50,8 @@ def make_script(rng, g):
     c = rng.random()
     if c < 0.25:
         # include tree
-        files, main_path, info = c07.build(rng, g)
-        return ("tree", files, main_path, {"include>=3-modes"} if any(s[2] >= 3 for s in info["subs"]) else {"include"})
+        files, main_path, info = c07.build(rng, g, symbolic_args=rng.random() < 0.4)
+        return ("tree", files, main_path, ({"include>=3-modes"} if any(s[2] >= 3 for s in info["subs"]) else {"include"}) | (info["tags"] & {"symbolic-include-argument"}))
     hostile = ["r", "rr", "r1", "a", "a1", "alpha", "al", "e", "E", "I", "S", "N", "p0", "p01", "phi", "phi2", "ph", "x", "xx", "x_1", "theta", "theta1"]
     if rng.random() < 0.3:
         # a name next to the same name with a suffix
@@ -99,33 +108,40 @@ def run(ctx):
             if it is None:
                 continue
             kind, payload, main_path, tags = it
+            exc = None
+            P = None
             if kind == "tree":
                 d = os.path.join(root, "t%d" % i)
                 c07.materialise(d, payload)
-                ident = json.dumps(sorted(payload.items()))
+                ident = json.dumps(sorted((k_, v_ if isinstance(v_, str) else sorted(v_.items())) for k_, v_ in payload.items()))
                 k = c07.ref_of(payload, main_path, d)
-                if k[0] != "ok":
-                    ctx.out_of_domain("tree not valid/in domain")
+                if k[0] in ("nosentence", "refbug"):
+                    ctx.out_of_domain("tree not grammatical")
                     continue
+                if k[0] != "ok":
+                    ctx.observe("script outside the reference's domain, compared all the same")
                 try:
                     P = blackbird.load(os.path.join(d, main_path))
                 except Exception as e:
-                    ctx.out_of_domain("load raised (other properties' business)")
-                    continue
-                # absolute include spellings contain the temporary directory: identify the case by its relative content
+                    exc = e
             else:
                 ident = payload
-                k = common.classify(payload)
-                if k[0] != "ok":
-                    ctx.out_of_domain("script not valid/in domain")
+                try:
+                    ok_, bad_, toks_ = g.is_sentence(payload)
+                except ValueError:
+                    ok_ = False
+                if not ok_:
+                    ctx.out_of_domain("script not grammatical")
                     continue
                 P, exc = common.real_loads(payload)
-                if exc is not None:
-                    ctx.out_of_domain("loads raised (other properties' business)")
-                    continue
             nt = bool(tags & {"param-multi", "regref-multi", "include>=3-modes"})
             h = ctx.case(ident, nt, tags=sorted(tags))
             ctx.sample({"script": ident[:600]}, limit=1)
+            if exc is not None:
+                # the outcome of a failing load must not depend on the hash seed either
+                msg = normalise_message(str(exc)).replace(root, "<tmp>")
+                digests[str(i)] = [h, "exc:" + type(exc).__name__, hashlib.sha1(msg.encode()).hexdigest(), "raises %s: %s" % (type(exc).__name__, msg[:300])]
+                continue
             cj = content.content_jsonable(content.program_content(P), with_vars=True)
             cd = hashlib.sha1(json.dumps(cj, sort_keys=True).encode()).hexdigest()
             try:
